@@ -3,6 +3,7 @@ import PyXABModel.Drv.TreeBandit
 import PyXABModel.Drv.Sweep
 import PyXABModel.Drv.Meta
 import PyXABModel.Drv.Zooming
+import PyXABModel.Drv.VROOM
 namespace PyXAB.Drv
 
 inductive DState where
@@ -17,6 +18,7 @@ inductive DState where
   | poo (d : PooD)
   | gpo (d : GpoDD)
   | zoom (d : ZoomD)
+  | vr (d : VrD)
 
 def runRd {β} (r : Rd β) (toks : List String) : Except String β :=
   match r.run toks with
@@ -89,6 +91,12 @@ def algoStep (st : DState) (cmd : String) (args : List String) : DState × Strin
     | .ok (.ok d) => (.zoom d, "ok")
     | .ok (.error e) => (.none, s!"ERR {errName e}")
     | .error e => (.none, s!"bad-op {e}")
+  | "VROOM.init", _ =>
+    match vrInit args with
+    | .ok (.ok d, note) => (.vr d, note)
+    | .ok (.error e, _) => (.none, s!"ERR {errName e}")
+    | .error e => (.none, s!"bad-op {e}")
+  | _, .vr d => let (d', o) := vrStep d cmd args; (.vr d', o)
   | _, .zoom d => let (d', o) := zoomStep d cmd args; (.zoom d', o)
   | _, .poo d => let (d', o) := pooStep d cmd args; (.poo d', o)
   | _, .gpo d => let (d', o) := gpoStep d cmd args; (.gpo d', o)
